@@ -525,7 +525,7 @@ def run_split(repo, n, size, empty=(), skip_i=True, skip_f=True):
 def r92(ctx, repo):
     f = repo.func(SPLIT, "split")
     bad = {"partition": None, "size": None, "count": None, "filtered": None,
-           "names": None, "boundary": None}
+           "names": None, "boundary": None, "inner": None}
     n_eval = 0
     cases = []
     for n, s in ((10, 5), (10, 3), (7, 1), (3, 10), (6, 6), (1, 1), (9, 4),
@@ -534,6 +534,14 @@ def r92(ctx, repo):
     cases += [(7, 3, (0,), True, True), (7, 3, (6,), True, True),
               (6, 3, (0, 5), True, True), (7, 3, (0, 6), False, False),
               (6, 2, (0,), True, False), (6, 2, (5,), False, True)]
+    # all-zero images at the inner part boundaries (last event of a part,
+    # first event of the next one): only the dataset's own first / last
+    # event may be skipped, the helper runs once per part window
+    cases += [(9, 3, (2,), True, True), (9, 3, (3,), True, True),
+              (9, 3, (5, 6), True, True), (10, 4, (3, 4, 7), True, True),
+              (9, 3, (2, 8), True, True), (9, 3, (0, 3), True, True),
+              (8, 4, (3,), False, True), (8, 4, (4,), True, False),
+              (6, 1, (2, 3), True, True)]
     for n, s, empty, si, sf in cases:
         n_eval += 1
         tag = f"N={n}, split size {s}" + (
@@ -580,7 +588,9 @@ def r92(ctx, repo):
                 bad["filtered"] = bad["filtered"] or (
                     f"{tag}: part exported with filtered={p['filtered']}")
         if got != want:
-            key = "boundary" if empty else "partition"
+            inner = [i for i in empty if 0 < i < n - 1]
+            key = "inner" if inner else ("boundary" if empty
+                                         else "partition")
             bad[key] = bad[key] or (
                 f"{tag}: the parts hold events {got}, expected {want}")
         if len(parts) != math.ceil(n / s):
@@ -611,8 +621,11 @@ def r92(ctx, repo):
                  "renamed to its own final name and carries the split log",
         "boundary": "empty boundary images are skipped exactly when "
                     "requested, nothing else is lost",
+        "inner": "an all-zero image inside the dataset (also on the last / "
+                 "first event of a part) is never dropped",
     }
-    for k in ("partition", "size", "count", "filtered", "names", "boundary"):
+    for k in ("partition", "size", "count", "filtered", "names", "boundary",
+              "inner"):
         ctx.ob("R9.2", bad[k] is None, texts[k] if bad[k] is None else bad[k],
                node=f, label=f"split {k}")
     ctx.stat("R9.2 split evaluations", n_eval)
@@ -968,7 +981,7 @@ def run(ctx):
     ctx.rule("R9.1", "no mutation of a container inside a `for` over a live "
              "view of it (dclab/cli)", minimum=1)
     ctx.rule("R9.2", "split: the exported masks partition the events in "
-             "order, ceil(N/S) parts of at most S events", minimum=6)
+             "order, ceil(N/S) parts of at most S events", minimum=7)
     ctx.rule("R9.3", "join: common features, continuous time / frame / "
              "index_online, pass-through, logs of every source", minimum=6)
     ctx.rule("R9.4", "join: chronological order for any given order, incl. "
@@ -1132,6 +1145,9 @@ TWINS = [
      ("    for pt, pp in zip(paths_temp, paths_gen):\n        pt.rename(pp)",
       "    for jj, pt in enumerate(paths_temp):\n"
       "        pt.rename(paths_gen[jj])")),
+    ("skip_empty: final index from the image column", COMMON,
+     ("            idfin = len(ds) - 1",
+      "            idfin = len(ds[\"image\"]) - 1")),
     ("skip_empty: image test first", COMMON,
      ('        if (("image" in ds and ds.format == "tdms"\n'
       '             and ds.config["fmt_tdms"]["video frame offset"])\n'
@@ -1146,6 +1162,16 @@ TWINS = [
 
 # mutants that re-introduce the repaired defects (apply to the fixed tree)
 MUTANTS = list(MUTANTS) + [
+    ("skip_empty: final event of the part window instead of the dataset "
+     "(seeded)", COMMON,
+     ("            idfin = len(ds) - 1",
+      "            idfin = int(np.flatnonzero(ds.filter.manual)[-1])"),
+     "R9.2"),
+    ("skip_empty: first event of the part window instead of the dataset",
+     COMMON,
+     ("            ds.filter.manual[0] = False",
+      "            ds.filter.manual[int(np.flatnonzero("
+      "ds.filter.manual)[0])] = False"), "R9.2"),
     ("pruning while iterating (F09 returns)", "dclab/cli/task_join.py",
      ("for feat in list(features):", "for feat in features:"), "R9.1"),
     ("string sort key (F09b returns)", "dclab/cli/task_join.py",
